@@ -2,10 +2,10 @@ SPECIFICATION Spec
 CONSTANTS
   Kind = "EMG"
   NI = 2
-  MaxItems = 3
+  MaxItems = 2
   MaxChan = 3
   Labels = {1, 2}
-  Chans = {2}
+  Chans = {1, 2}
   AutoRule = "max"
 INVARIANT InvConforms
 INVARIANT InvAligned
